@@ -14,6 +14,8 @@ import (
 	"fmt"
 	"net"
 	"runtime"
+	"os"
+	"os/exec"
 	"strings"
 	"sync"
 	"testing"
@@ -78,6 +80,8 @@ type cpFault struct {
 	// tests (ShortName substrings) written for the requirement this fault breaks
 	targets []string
 	modSend func(*spb.ModifyResponse) *spb.ModifyResponse // nil result = drop the response
+	// modSendSt is modSend with access to the stream's state
+	modSendSt func(*cpModStream, *spb.ModifyResponse) *spb.ModifyResponse
 	// interceptReq may answer a request itself (returns true) instead of forwarding it
 	interceptReq func(st *cpModStream, m *spb.ModifyRequest) bool
 	modGet       func(*spb.GetResponse) *spb.GetResponse
@@ -100,6 +104,8 @@ type cpModStream struct {
 	// election-only responses to swallow (answers to announcements the wrapper injected)
 	mu       sync.Mutex
 	dropElec int
+	// the election id this session announced last (for faults that misreport per session)
+	lastAnnounced *spb.Uint128
 }
 
 func (s *cpModStream) Send(m *spb.ModifyResponse) error {
@@ -112,6 +118,12 @@ func (s *cpModStream) Send(m *spb.ModifyResponse) error {
 	s.mu.Unlock()
 	if s.f != nil && s.f.modSend != nil {
 		m = s.f.modSend(m)
+		if m == nil {
+			return nil
+		}
+	}
+	if s.f != nil && s.f.modSendSt != nil {
+		m = s.f.modSendSt(s, m)
 		if m == nil {
 			return nil
 		}
@@ -276,7 +288,42 @@ type cpConfig struct {
 
 var cpConfigs = []cpConfig{{1, "NON-DEFAULT-VRF", "DEFAULT"}, {1 << 40, "VRF-X", "default"}, {1000, "NON-DEFAULT-VRF", "DEFAULT"}, {^uint64(0) - 100000, "a-vrf", "main"}}
 
+// cpPermCase runs one permutation of the suite in a process of its own (the harness binary
+// re-executed with the command "cpperm"): package-level state of the compliance, chk and fluent
+// packages — the election-id counter, anything a helper caches — starts fresh for every permutation,
+// as it does for a user who runs the suite, so a verdict that depends on which test came first in
+// the process shows up as a difference between permutations.
 func cpPermCase(seed uint64, idx int) *CaseSpec {
+	name := fmt.Sprintf("compliance/perm/%d/%d", seed, idx)
+	run := func(keep []int) (*Trace, error) {
+		cpMu.Lock()
+		defer cpMu.Unlock()
+		ctx, cancel := context.WithTimeout(context.Background(), 20*time.Minute)
+		defer cancel()
+		cmd := exec.CommandContext(ctx, os.Args[0], "cpperm", fmt.Sprint(seed), fmt.Sprint(idx))
+		cmd.Stderr = nil
+		out, err := cmd.Output()
+		t := &Trace{}
+		for _, l := range strings.Split(string(out), "\n") {
+			// the tests print to stdout too: keep the trace lines only
+			if strings.HasPrefix(l, "begin ") || strings.HasPrefix(l, "cp.") || l == "end" || strings.HasPrefix(l, "crash ") || l == "hang" {
+				t.Lines = append(t.Lines, l)
+			}
+		}
+		if err != nil || len(t.Lines) == 0 || t.Lines[len(t.Lines)-1] != "end" {
+			if len(t.Lines) == 0 {
+				t.Add("begin %s", name)
+			}
+			t.Add("crash - %s", S(fmt.Sprintf("the process running the permutation ended abnormally: %v", err)))
+			t.Add("end")
+		}
+		return t, nil
+	}
+	return &CaseSpec{Name: name, N: 1, Run: run, Atomic: true, Inputs: func() []string { return []string{name} }}
+}
+
+// cpPermBody is the permutation itself (run in the child process).
+func cpPermBody(seed uint64, idx int) *CaseSpec {
 	name := fmt.Sprintf("compliance/perm/%d/%d", seed, idx)
 	run := func(keep []int) (*Trace, error) {
 		cpMu.Lock()
@@ -378,6 +425,112 @@ func cpFirstCase() *CaseSpec {
 	return &CaseSpec{Name: name, N: 1, Run: run, Atomic: true, Inputs: func() []string { return []string{name} }}
 }
 
+// cpTier: the tier of the run (the corpus is built without it)
+var cpTier = "quick"
+
+// cpLeaderProbes: cheap tests of different kinds that are run after the leading test
+var cpLeaderProbes = []string{
+	"Add IPv4 entry that can be programmed on the server - with RIB ACK",
+	"Implicit replace IPv4 entry - RIB ACK",
+	"Idempotent Delete entry - RIB ACK",
+	"Election - Lower election ID from new client",
+	"Flush from non-elected master returns error",
+	"Get for installed chain of entries - FIB ACK",
+}
+
+// cpLeaderBody (child process): test `lead` of the registry runs first in this fresh process, on
+// fresh conformant servers, then the probes run on the same servers.
+func cpLeaderBody(lead int) *Trace {
+	client.BusyLoopDelay = 100 * time.Millisecond
+	t := &Trace{}
+	a, err := newCpServer([]string{"NON-DEFAULT-VRF"}, true, nil)
+	if err != nil {
+		return t
+	}
+	defer a.stop()
+	b, err := newCpServer([]string{"NON-DEFAULT-VRF"}, false, nil)
+	if err != nil {
+		return t
+	}
+	defer b.stop()
+	order := []int{lead}
+	for _, nm := range cpLeaderProbes {
+		for i, tt := range compliance.TestSuite {
+			if tt.In.ShortName == nm && i != lead {
+				order = append(order, i)
+			}
+		}
+	}
+	prev := "(nothing: first test of a fresh process)"
+	for pos, i := range order {
+		tt := compliance.TestSuite[i]
+		srv := a
+		if tt.In.RequiresDisallowedForwardReferences {
+			srv = b
+		}
+		res := runCpTest(tt, srv, 60*time.Second)
+		v := "pass"
+		if res != "" {
+			v = "fail"
+			res = fmt.Sprintf("in a fresh process led by '%s': %s", compliance.TestSuite[lead].In.ShortName, res)
+		}
+		t.Add("cp.test %d %d %s %s => %s %s", pos, i, S(tt.In.ShortName), S(prev), v, S(res))
+		prev = tt.In.ShortName
+		if res == "timeout" || res == "stop-timeout" {
+			break
+		}
+	}
+	return t
+}
+
+// cpLeadersCase: every test of the suite in turn as the first test of a fresh process (package
+// state of compliance / chk / fluent untouched), followed by the probes; the children run in parallel.
+func cpLeadersCase(tier string) *CaseSpec {
+	name := "compliance/leaders"
+	run := func(keep []int) (*Trace, error) {
+		t := &Trace{}
+		t.Add("begin %s", name)
+		t.Add("cp.config %d %s %s %d", 1, S("NON-DEFAULT-VRF"), S(server.DefaultNetworkInstanceName), 0)
+		n := len(compliance.TestSuite)
+		outs := make([][]string, n)
+		sem := make(chan struct{}, 8)
+		var wg sync.WaitGroup
+		for i := 0; i < n; i++ {
+			nm := compliance.TestSuite[i].In.ShortName
+			if strings.Contains(nm, "Benchmark") {
+				continue
+			}
+			if tier != "thorough" && i%2 == 1 && !strings.Contains(nm, "replace") && !strings.Contains(nm, "Idempotent") && !strings.Contains(nm, "does not exist") {
+				continue // quick: every second test, plus all the ones that check operation ids and details
+			}
+			wg.Add(1)
+			go func(i int) {
+				defer wg.Done()
+				sem <- struct{}{}
+				defer func() { <-sem }()
+				ctx, cancel := context.WithTimeout(context.Background(), 5*time.Minute)
+				defer cancel()
+				out, err := exec.CommandContext(ctx, os.Args[0], "cpleader", fmt.Sprint(i)).Output()
+				for _, l := range strings.Split(string(out), "\n") {
+					if strings.HasPrefix(l, "cp.") {
+						outs[i] = append(outs[i], l)
+					}
+				}
+				if err != nil || len(outs[i]) == 0 {
+					outs[i] = append(outs[i], fmt.Sprintf("cp.test 0 %d %s %s => fail %s", i, S(compliance.TestSuite[i].In.ShortName), S("-"), S(fmt.Sprintf("the process running the test first ended abnormally: %v", err))))
+				}
+			}(i)
+		}
+		wg.Wait()
+		for _, ls := range outs {
+			t.Lines = append(t.Lines, ls...)
+		}
+		t.Add("end")
+		return t, nil
+	}
+	return &CaseSpec{Name: name, N: 1, Run: run, Atomic: true, Inputs: func() []string { return []string{name} }}
+}
+
 // ---- the fault catalogue ----
 
 // cpInstalled reports whether the entry an operation names is installed on the server.
@@ -443,6 +596,32 @@ func cpFaults() []*cpFault {
 				}
 				e := m.GetElectionId()
 				return &spb.ModifyResponse{ElectionId: &spb.Uint128{High: e.High + 7, Low: e.Low}}
+			},
+		},
+		{
+			// every announcement is answered with the announcer's own id instead of the highest
+			// one the server has learnt: a client that announces a lower id is told it won
+			name:    "answers-elections-with-the-announcers-own-id",
+			targets: []string{"Election - Lower election ID from new client"},
+			interceptReq: func(st *cpModStream, m *spb.ModifyRequest) bool {
+				if e := m.GetElectionId(); e != nil {
+					st.mu.Lock()
+					st.lastAnnounced = e
+					st.mu.Unlock()
+				}
+				return false
+			},
+			modSendSt: func(st *cpModStream, m *spb.ModifyResponse) *spb.ModifyResponse {
+				if m.GetElectionId() == nil || len(m.GetResult()) != 0 {
+					return m
+				}
+				st.mu.Lock()
+				own := st.lastAnnounced
+				st.mu.Unlock()
+				if own == nil {
+					return m
+				}
+				return &spb.ModifyResponse{ElectionId: own}
 			},
 		},
 		{
@@ -575,6 +754,7 @@ func init() {
 	modes["compliance"] = &Mode{
 		Name: "compliance",
 		Gen: func(seed uint64, idx int, tier string) *CaseSpec {
+			cpTier = tier
 			nf := len(cpFaults())
 			if idx < nf {
 				if tier == "thorough" {
@@ -588,9 +768,9 @@ func init() {
 			if tier == "thorough" {
 				return len(cpFaults()) + 20
 			}
-			return len(cpFaults()) + 2
+			return len(cpFaults()) + 3
 		},
-		Corpus:   func() []*CaseSpec { return []*CaseSpec{cpFirstCase()} },
+		Corpus:   func() []*CaseSpec { return []*CaseSpec{cpFirstCase(), cpLeadersCase(cpTier)} },
 		Required: []string{"cp.pass", "cp.fault.flagged"},
 		Serial:   true,
 		Atomic:   true,
